@@ -227,6 +227,7 @@ inductive AuthOp
   | query (q : DRule)
   | reset
   | saveLoad (tok : Nat)      -- save, then load into a fresh authorizer for token `tok`
+  | loadSnap (snap : Snapshot) -- `LoadPolicies` of a snapshot made elsewhere, on this authorizer
   deriving DecidableEq, Repr
 
 inductive AuthOut
@@ -263,6 +264,7 @@ def stepOpSeq (cfg : EvalCfg) (pinnedReset : Bool) (toks : List Token) (st : Seq
     match save st.auth with
     | none => (st, .saved false)
     | some snap => ({ tok := j, auth := load (AuthState.fresh st.auth.limits) snap }, .saved true)
+  | .loadSnap snap => ({ st with auth := load st.auth snap }, .saved true)
 
 def runSeq (cfg : EvalCfg) (pinnedReset : Bool) (toks : List Token) : SeqState → List AuthOp → List AuthOut
   | _, [] => []
